@@ -9,7 +9,7 @@ use std::path::PathBuf;
 
 pub static PROP: Prop = Prop {
     id: "C07",
-    rule: "histories of 3-24 operations on ONE Koto instance decoded from a proptest choice vector: compile_and_run of succeeding scripts (export a value, push to an exported list), of failing scripts (30 failure carriers: top-level throw; error at call depth 1-4; inside each / fold / sort / keep callbacks; inside a generator; inside a half-built list / tuple / map / interpolated string / argument list / nested combinations of them; `return` and `break` out of half-built values; failed let / argument / return hint; compile error; missing import; import of a module that throws after exporting; import cycle; error inside @+ / @iterator / @index / @display overloads; rethrow from catch; error inside finally; failing @test; timeout under a 40 ms limit) each preceded by completed effects, call_exported_function / call_function with good and bad arguments, value_to_string of good and throwing values, and the VM entry points run_unary_op (7 operators), run_binary_op (24), run_read_op, run_write_op, make_iterator + next on operands whose overloads succeed, throw or return the wrong type. After EVERY operation: (1) the guarded accessor reports registers = call stack = sequence builders = string builders = register base = 0; (2) a battery of 9 probe scripts (nested calls, 300-element list literal, interpolation with nested call, generator, unpacking, try/catch, good import, recursion depth 100, nested builders inside a caught error) prints exactly what it prints on a fresh instance; (3) the exports map equals the model's (completed effects only). In addition 400 consecutive failing host calls of each kind are followed by the battery. Non-trivial: the history contains a failure followed by at least two further operations.",
+    rule: "histories of 3-24 operations on ONE Koto instance decoded from a proptest choice vector: compile_and_run of succeeding scripts (export a value, push to an exported list), of failing scripts (30 failure carriers: top-level throw; error at call depth 1-4; inside each / fold / sort / keep callbacks; inside a generator; inside a half-built list / tuple / map / interpolated string / argument list / nested combinations of them; `return` and `break` out of half-built values; failed let / argument / return hint; compile error; missing import; import of a module that throws after exporting; import cycle; error inside @+ / @iterator / @index / @display overloads; rethrow from catch; error inside finally; failing @test; timeout under a 40 ms limit) each preceded by completed effects, call_exported_function / call_function with good and bad arguments, value_to_string of good and throwing values, and the VM entry points run_unary_op (7 operators), run_binary_op (24), run_read_op, run_write_op, make_iterator + next on operands whose overloads succeed, throw or return the wrong type. After EVERY operation: (1) the guarded accessor reports registers = call stack = sequence builders = string builders = register base = 0; (2) a battery of 10 probe scripts (nested calls, 300-element list literal, interpolation with nested call, generator, unpacking, try/catch, good import, recursion depth 100, nested builders inside a caught error) prints exactly what it prints on a fresh instance; (3) the exports map equals the model's (completed effects only). In addition 400 consecutive failing host calls of each kind are followed by the battery. Non-trivial: the history contains a failure followed by at least two further operations.",
     assumptions: &[
         "the module directory is created per shard under engine/run; timeouts use a 40 ms limit and are drawn rarely (they cost wall-clock time)",
         "the Ok/Err outcome of an individual host call is only judged where the guide defines it (write through run_write_op, exported function results); the property is about what is left behind",
@@ -101,6 +101,8 @@ pub fn carriers() -> Vec<(&'static str, &'static str)> {
         ("import-missing", "import no_such_module_c07\n"),
         ("import-bad", "import bad\n"),
         ("import-cycle", "import cyc_a\n"),
+        ("import-bad-main", "import bad_main\n"),
+        ("import-bad-test", "import bad_test\n"),
         ("overload-add", "o = {@+: |x| throw 'add'}\n[1, o + 1]\n"),
         ("overload-iterator", "o = {@iterator: || throw 'it'}\nfor x in o\n  x\n"),
         ("overload-index", "f = |(a, b)| a\no = {@index: (|i| throw 'ix'), @size: || 2}\n[1, f o]\n"),
@@ -205,12 +207,25 @@ fn battery() -> Vec<&'static str> {
         "x = 7\nl = [x, x + 1, x + 2, x + 3, x + 4, x + 5, x + 6, x + 7, x + 8, x + 9, x + 10, x + 11, x + 12, x + 13, x + 14, x + 15, x + 16, x + 17, x + 18, x + 19]\nprint l.fold 0, |a, b| a + b\nprint size (0..300).to_list()\n",
         "g = |x| '<{x}>'\nprint 'a{g 1}b{g (g 2)}c{[g 3, (g 4, 5)]}'\n",
         "gen = |n|\n  for i in 0..n\n    yield i * i\nprint gen(5).to_tuple()\n",
-        "a, (b, c...), d = 1, (2, 3, 4), 5\nprint a, b, c, d\nf = |(x, y), z...| x + y + size z\nprint f (1, 2), 3, 4\n",
+        "a, b, c = 1, (2, 3, 4), 5\nprint a, b, c\nf = |(x, y), z...| x + y + size z\nprint f((1, 2), 3, 4)\nmatch b\n  (first, rest...) then print first, rest\n",
         "r = try\n  [1, '{1 + null}']\ncatch e\n  'caught'\nfinally\n  print 'fin'\nprint 'outer<{r}>' \n",
         "import good\nprint good.value, good.twice 21\n",
         "f = |n| if n == 0 then 0 else 1 + f(n - 1)\nprint f 100\n",
         "h = ||\n  try\n    (1, [2, '{3}{throw 'x'}'])\n  catch _\n    'c'\nprint [0, 'p{h()}q', (h(), 1)]\n",
+        // modules whose import fails must fail again in the same way
+        "f1 = ||\n  try\n    import bad\n    'imported'\n  catch e\n    'failed'\nf2 = ||\n  try\n    import bad_main\n    'imported'\n  catch e\n    'failed'\nf3 = ||\n  try\n    import bad_test\n    'imported'\n  catch e\n    'failed'\nf4 = ||\n  try\n    import cyc_a\n    'imported'\n  catch e\n    'failed'\nprint f1(), f2(), f3(), f4()\n",
     ]
+}
+
+/// Debug helper: the battery's output on a fresh instance
+pub fn print_battery() {
+    let dir = PathBuf::from(format!("/verif/engine/run/c07-modules/dbg-{}", std::process::id()));
+    write_modules(&dir);
+    let mut fresh = new_instance(&dir, None);
+    for (i, o) in battery_outputs(&mut fresh).iter().enumerate() {
+        println!("{i}: {o:?}");
+    }
+    let _ = std::fs::remove_dir_all(&dir);
 }
 
 pub struct Instance {
@@ -227,6 +242,8 @@ fn write_modules(dir: &PathBuf) {
     w("main.koto", "# the script path must exist for imports to resolve\n");
     w("good.koto", "export value = 'good'\nexport twice = |x| x * 2\n");
     w("bad.koto", "export early = 1\nthrow 'bad module'\n");
+    w("bad_main.koto", "export value = 42\n@main = || throw 'flaky main failed'\n");
+    w("bad_test.koto", "export value = 43\n@test failing = || assert false\n");
     w("cyc_a.koto", "import cyc_b\nexport a = 1\n");
     w("cyc_b.koto", "import cyc_a\nexport b = 1\n");
 }
